@@ -100,6 +100,7 @@ fn main() {
         "ackmgr-run" => ackmgr::run(&args[1..]),
         // cidreg-run <behaviours.txt | random:<count>:<seed>> <out.ndjson>
         "cidreg-run" => cidreg::run(&args[1..]),
+        "peerreg-run" => cidreg::run_peer(&args[1..]),
         // one <scenario.json> <out.ndjson>
         "one" => {
             let sc: scen::Scenario = serde_json::from_str(&std::fs::read_to_string(&args[1]).unwrap()).unwrap();
